@@ -97,12 +97,14 @@ def judge_one(got: Any, fam: set[frozenset], universe: frozenset) -> Optional[st
 
 def judge_cover(fam: set[frozenset], universe: frozenset) -> Optional[str]:
     """C06: sound (and complete in the exactness class) for the real set and for every presented iteration order"""
-    msg = judge_one(get_weighted_cover({frozenset(s) for s in fam}, frozenset(universe)), fam, universe)
+    # the REAL kernel runs traced; the brute-force oracle works on path-concrete sets and runs untraced
+    got = get_weighted_cover({frozenset(s) for s in fam}, frozenset(universe))
+    msg = untraced(lambda: judge_one(got, fam, universe))
     if msg:
         return msg
-    for order in orders_of(fam):
+    for order in untraced(lambda: orders_of(fam)):
         alt = get_weighted_cover(OSet([frozenset(s) for s in order]), frozenset(universe))  # type: ignore[arg-type]
-        msg = judge_one(alt, fam, universe)
+        msg = untraced(lambda: judge_one(alt, fam, universe))
         if msg:
             return msg + f" [iteration order {[sorted(s) for s in order]}]"
     return None
@@ -183,8 +185,17 @@ def family(bits: list[Any], k: int) -> set[frozenset]:
 def _pre(bits: list[Any], k: int) -> bool:
     n = 2 ** k - 1
     fx = CFG.get("fix") or []
-    return (all(b in (0, 1) for b in bits[:n]) and all(b == 0 for b in bits[n:]) and any(b == 1 for b in bits[:n])
-            and all(bits[i] == v for i, v in enumerate(fx)))
+    if not (all(b in (0, 1) for b in bits[:n]) and all(b == 0 for b in bits[n:]) and any(b == 1 for b in bits[:n])
+            and all(bits[i] == v for i, v in enumerate(fx))):
+        return False
+    mx = CFG.get("max_sets")
+    if mx is not None:
+        tot = 0
+        for b in bits[:n]:
+            tot += b
+        if tot > mx:
+            return False
+    return True
 
 
 def pre15(b0: int, b1: int, b2: int, b3: int, b4: int, b5: int, b6: int, b7: int, b8: int, b9: int, b10: int,
